@@ -50,11 +50,33 @@ class MaskedOps:
 
 
 def _masked_getitem(interp, base, key):
+    """TRUSTED model of boolean-mask indexing x[m].  1-d: the result enumerates, in increasing order, exactly the positions
+    where m is true (selection map c shared by every array indexed with the SAME mask object); n-d: contents abstracted."""
     if isinstance(key, SymArr) and key.kind == "bool" and key.ndim == base.ndim:
-        n = interp.ctx.fresh("n_selected", "int")
-        interp.ctx.assume(n.t >= 0)
-        r = interp.ctx.fresh_arr("selected", (n,), base.kind if base.kind in ("int", "real", "bool") else "real")
-        return r
+        ctx = interp.ctx
+        if base.ndim == 1:
+            cache = ctx.ghost.setdefault("compress", {})
+            if id(key) not in cache:
+                m = ctx.fresh("n_selected", "int")
+                nm = ctx.fresh_name("sel")
+                C = z3.Function(nm, z3.IntSort(), z3.IntSort())
+                D = z3.Function(nm + "_inv", z3.IntSort(), z3.IntSort())
+                n = lift(key.shape[0])
+                t, u, i = I("t!q"), I("u!q"), I("i!q")
+                kf = key.fn
+                ctx.assume(m.t >= 0)
+                ctx.assume(forall(t, implies(AND(t >= 0, t < m.t), AND(C(t) >= 0, C(t) < n, lift(kf(C(t))), D(C(t)) == t)), patterns=[C(t)]))
+                ctx.assume(forall([t, u], implies(AND(t >= 0, t < u, u < m.t), C(t) < C(u))))
+                ctx.assume(forall(i, implies(AND(i >= 0, i < n, lift(kf(i))), AND(D(i) >= 0, D(i) < m.t, C(D(i)) == i)), patterns=[D(i)]))
+                cache[id(key)] = (m, C, key)
+            m, C, _ = cache[id(key)]
+            bf = base.fn
+            r = SymArr((m,), lambda t: bf(C(lift(t))), base.kind)
+            r.as_type = getattr(base, "as_type", None) or __import__("torch").Tensor
+            return r
+        n = ctx.fresh("n_selected", "int")
+        ctx.assume(n.t >= 0)
+        return ctx.fresh_arr("selected", (n,), base.kind if base.kind in ("int", "real", "bool") else "real")
     return NotImplemented
 
 
@@ -343,7 +365,7 @@ def fw_spec(a, b):
 
 C_FINDWRAP = Contract(
     f"{IU}:_find_wrap", setup=fw_setup,
-    ensures=lambda s: [("value", lift(s.result) == fw_spec(s.a, s.b))],
+    ensures=lambda s: [] if isinstance(s.result, SymArr) else [("value", lift(s.result) == fw_spec(s.a, s.b))],  # arrays: elementwise by construction in `result`
     result=lambda ctx, s: Sym(fw_spec(s.a, s.b)) if not isinstance(s.a, SymArr) else V.elementwise(lambda p, q: Sym(fw_spec(p, q)), s.a, s.b, kind="int"),
 )
 
@@ -353,13 +375,29 @@ def wp_setup(ctx):
 
 
 def wp_ensures(s):
+    if isinstance(s.x, SymArr):  # call sites with tensors: the same two facts for every element (M = ghost wrap count)
+        idx = [I(f"i!w{d}") for d in range(s.x.ndim)]
+        rng = AND(*[AND(i >= 0, i < lift(d)) for i, d in zip(idx, s.x.shape)])
+        r, x = lift(s.result.fn(*idx)), lift(s.x.fn(*idx))
+        M = s.result.wraps
+        return [("range[-pi,pi)", forall(idx, implies(rng, AND(r >= -PI, r < PI)))),
+                ("congruent-mod-2pi", forall(idx, implies(rng, r == x - 2 * PI * z3.ToReal(M(*idx)))))]
     r, x = lift(s.result), lift(s.x)
     m = I("m")
     return [("range[-pi,pi)", AND(r >= -PI, r < PI)),
             ("congruent-mod-2pi", z3.Exists([m], r == x - 2 * PI * z3.ToReal(m)))]
 
 
-C_WRAP = Contract(f"{IU}:_wrap_to_pi", setup=wp_setup, ensures=wp_ensures)
+def wp_result(ctx, s):
+    if isinstance(s.x, SymArr):
+        r = ctx.fresh_arr("wrapped", s.x.shape, "real")
+        r.as_type = getattr(s.x, "as_type", None)
+        r.wraps = z3.Function(ctx.fresh_name("wraps"), *([z3.IntSort()] * s.x.ndim), z3.IntSort())
+        return r
+    return ctx.fresh("wrapped", "real")
+
+
+C_WRAP = Contract(f"{IU}:_wrap_to_pi", setup=wp_setup, ensures=wp_ensures, result=wp_result)
 
 # ---- the reliability-sorting driver: edge loop over union-find, final offsets, output formula
 # Ghost: kk(v) = true wrap count of pixel v (phi_true = psi + 2 pi kk); ADJ(p, q) = "(p, q) is an edge the code may process"
@@ -419,8 +457,47 @@ def be_ensures(s):
             ("inc=find_wrap(phi[i1],phi[i2])-of-the-GIVEN-phase", forall(j, implies(inj, lift(inc.fn(j)) == fw_spec(pf(a), pf(b)))))]
 
 
-C_BUILD = Contract(f"{IU}:_build_edges", setup=None, ensures=be_ensures, result=be_result,
-                   note="ASSUMED contract (validated on small grids by the bounded _build_edges oracle, not proved)")
+def concrete_adj(p, q, H, W, wrap, maskfn):
+    """p and q are 4-neighbours (periodic if wrap), both valid - in either order (edges are undirected)."""
+    return OR(_directed_adj(p, q, H, W, wrap, maskfn), _directed_adj(q, p, H, W, wrap, maskfn))
+
+
+def _directed_adj(p, q, H, W, wrap, maskfn):
+    """q is the right or down neighbour of p; flat indices are row-major."""
+    rm = V.rowmajor((H, W))
+    Hh, Ww = lift(H), lift(W)
+    r, c = rm.unr[0](p), rm.unr[1](p)
+    w = lift(wrap)
+    wrapc = lambda t, n: z3.If(t + 1 >= n, t + 1 - n, t + 1)  # (t + 1) mod n for 0 <= t < n
+    right_w = q == rm.lin(r, wrapc(c, Ww))
+    down_w = q == rm.lin(wrapc(r, Hh), c)
+    right_b = AND(c + 1 < Ww, q == rm.lin(r, c + 1))
+    down_b = AND(r + 1 < Hh, q == rm.lin(r + 1, c))
+    geo = z3.If(w, OR(right_w, down_w), OR(right_b, down_b))
+    if maskfn is None:
+        return geo
+    return AND(geo, maskfn(p), maskfn(q))
+
+
+def be_setup(ctx):
+    """The ghost relation ADJ (uninterpreted in the driver's contract, which therefore holds for EVERY relation) is DEFINED
+    here as the concrete neighbour relation; the definition is an assumption of this verification only (nothing to prove at
+    call sites), which makes the composition driver + _build_edges a statement about the concrete neighbour relation."""
+    s = drv_setup(ctx)
+    s.reliability = ctx.fresh_arr("reliability", (s.H, s.W), "real")
+    s.reliability.as_type = __import__("torch").Tensor
+    p, q = I("p"), I("q")
+    H, W = s.phi.shape
+    N = lift(H) * lift(W)
+    rm = V.rowmajor((H, W))
+    mf = None if s.mask is None else (lambda v: lift(s.mask.fn(rm.unr[0](v), rm.unr[1](v))))
+    ctx.assume(forall([p, q], implies(AND(p >= 0, p < N, q >= 0, q < N), ADJ(p, q) == concrete_adj(p, q, H, W, s.wrap_around, mf)),
+                      patterns=[ADJ(p, q)]))
+    return s
+
+
+C_BUILD = Contract(f"{IU}:_build_edges", setup=be_setup, ensures=be_ensures, result=be_result,
+                   inline=[], note="edge SET completeness (every neighbour pair is present) is covered by the bounded oracle only")
 C_REL = Contract(f"{IU}:_pixel_reliability", setup=None,
                  result=lambda ctx, s: ctx.fresh_arr("reliability", s.phi.shape, "real"),
                  note="only orders the edges; the result does not depend on it")
@@ -557,8 +634,8 @@ def bf_ensures(s):
 C_BFOVERLAP = Contract(f"{DPU}:unwrap_bf_overlap_phase_torch", setup=bf_setup, ensures=bf_ensures,
                        overrides={f"{IU}:unwrap_phase_2d_torch": C_UNWRAP_CALLEE})
 
-CONTRACTS = [C_INIT, C_FIND, C_UNION, C_FINAL, C_FINDWRAP, C_WRAP, C_DRIVER, C_UNWRAP_ANY, C_BFOVERLAP]
-ASSUMED_CONTRACTS = [C_BUILD, C_REL]
+CONTRACTS = [C_INIT, C_FIND, C_UNION, C_FINAL, C_FINDWRAP, C_WRAP, C_BUILD, C_DRIVER, C_UNWRAP_ANY, C_BFOVERLAP]
+ASSUMED_CONTRACTS = [C_REL]
 
 # ------------------------------------------------------------------------------------------------
 # lemmas
@@ -635,7 +712,12 @@ TRUSTED = [
     "pyvc engine, z3, cvc5",
 ]
 ASSUMPTIONS = ["A1 floats are reals", "A2 int64/float32 index stacking in _build_edges exact below 2^24 pixels (not proved)",
-               "_build_edges / _pixel_reliability covered by run-time contract on small grids (bounded), not by proof"]
+               "_build_edges: soundness of the produced edges (in range, 4-neighbours, both valid, increment of the GIVEN phase) is proved; "
+               "COMPLETENESS of the edge set (every neighbour pair present - needed for 'one constant per connected region') is only "
+               "covered by the bounded oracle on small grids",
+               "_pixel_reliability only orders the edges (result independent of it); its values are not specified",
+               "values.RowMajor axioms (row-major bijection for symbolic H x W) are theorems of integer division, assumed",
+               "boolean-mask indexing x[m] (1-d) = order-preserving enumeration of the true positions, shared selection map per mask object; argsort = bijection (trusted torch contracts)"]
 EXPLANATION = "VCs from the real source of UnionFindPhase/_final_offsets/_find_wrap/_wrap_to_pi with ghost root/potential/depth functions; property lemmas from the contracts"
 
 # ------------------------------------------------------------------------------------------------
@@ -793,7 +875,8 @@ def rt_edges(inp):
                 if mm[a, b] and mm[u, v]:
                     exp.append((a * W + b, u * W + v))
     problems = []
-    if sorted(zip(i1.tolist(), i2.tolist())) != sorted(exp):
+    und = lambda pairs: sorted(tuple(sorted(pq)) for pq in pairs)  # edges are undirected
+    if und(zip(i1.tolist(), i2.tolist())) != und(exp):
         problems.append(f"edge set differs: got {len(i1)} edges, expected {len(exp)}")
     pf = phi.flatten().numpy().astype(np.float64)
     d = pf[i1] - pf[i2]
@@ -903,6 +986,7 @@ for _c in (C_INIT, C_FIND, C_UNION, C_FINAL):
 for _c in (C_FINDWRAP, C_WRAP, C_DRIVER, C_UNWRAP_ANY):
     _c.rt, _c.rt_family = rt_unwrap, fam_unwrap
 C_BFOVERLAP.rt, C_BFOVERLAP.rt_family = rt_bf_overlap, fam_bf_overlap
+C_BUILD.rt, C_BUILD.rt_family = rt_edges, fam_edges
 
 BOUNDED = [
     Bounded.from_rt("union-find random consistent union sequences", rt_unionfind, fam_unionfind, "n<=8, <=15 unions, 3 seeds"),
